@@ -210,7 +210,9 @@ class FalsyStrictUndefined(StrictUndefined):
         return False
 
     def __eq__(self, other: object) -> bool:
-        return other is False
+        # Same answer as the default undefined type, so filters that compare with
+        # `==` (like `index`) can't produce output that `Undefined` would not.
+        return isinstance(other, Undefined) or other is None
 
 
 def is_undefined(obj: object) -> bool:
